@@ -33,7 +33,7 @@ LEVEL_NOTE = ('Trusted: Coq kernel; instruction semantics and atomicity granular
 I_INTERFACE, I_REQUEST, I_ROUTE, I_COMBINED = 0, 1, 2, 3
 CTX = {'O': 10, 'A': 11, 'B': 12, 'C': 13, 'D': 14, 'E': 15}
 NAMES = ['', 'x']
-PT_LOCK, PT_UNLOCK, PT_GET = 100, 101, 102
+PT_LOCK, PT_UNLOCK, PT_GET, PT_HELD = 100, 101, 102, 103
 
 
 # ------------------------------------------------------------ facts
@@ -143,33 +143,41 @@ def Rg(rq, ctx, name, sec, tag, inj=None, inj2=None):
 #   registration : {'t':'V', 'rq':1|2, 'ctx':None|'A'.., 'name':0|1, 'pred':None|'GET'|'POST', 'acc':None|'html'|'json', 'tag':int}
 METHODS = ['GET', 'POST', 'PUT']
 PREDS = [None, 'GET', 'POST']
-ACC = {None: None, 'html': 'text/html', 'json': 'application/json'}          # accept= of a view
+ACC = {None: None, 'html': 'text/html', 'json': 'application/json', 'html1': 'text/html;level=1',
+       'plain': 'text/plain'}                                                # accept= of a view
 HDR = {None: None, 'html': 'text/html', 'json': 'application/json', 'plain': 'text/plain',
-       'jh': 'application/json;q=0.9, text/html;q=0.4'}                      # Accept header of a request
-ACC_ORDER = ['html', 'json']      # server-side order of the default accept view order (text/html before application/json)
+       'jh': 'application/json;q=0.9, text/html;q=0.4', 'html1': 'text/html;level=1', 'textany': 'text/*',
+       'anylow': '*/*;q=0.1, application/json', 'xml': 'application/xml'}    # Accept header of a request
+FORBIDDEN_ANSWER = 999000         # the request was refused by the permission check of the selected view
 
 
-def Q(req, ctx, m, name=0, h=None):
-    return {'t': 'Q', 'req': req, 'ctx': ctx, 'name': name, 'm': m, 'h': h}
+def Q(req, ctx, m, name=0, h=None, u=0, s=1):
+    """u: 1 = the request carries the credentials the policy accepts; s: 0 = _call_view(secure=False)"""
+    return {'t': 'Q', 'req': req, 'ctx': ctx, 'name': name, 'm': m, 'h': h, 'u': u, 's': s}
 
 
-def V(rq, ctx, pred, tag, name=0, acc=None):
-    return {'t': 'V', 'rq': rq, 'ctx': ctx, 'name': name, 'pred': pred, 'acc': acc, 'tag': tag}
+def V(rq, ctx, pred, tag, name=0, acc=None, perm=0):
+    return {'t': 'V', 'rq': rq, 'ctx': ctx, 'name': name, 'pred': pred, 'acc': acc, 'perm': perm, 'tag': tag}
 
 
-def offers(h, present):
-    """request.accept.acceptable_offers(multiview.accepts) for the header values used here (WebOb semantics of exact
-    media types / q-values / a missing header), restricted to the media types the multiview has"""
-    srt = [a for a in ACC_ORDER if a in present]
-    if h is None:
-        return srt
-    if h == 'jh':
-        return [a for a in ('json', 'html') if a in present]
-    return [h] if h in present else []
+def offers(h, present, order):
+    """the media types of a MultiView a request accepts, in the order get_views tries them.  Both ingredients are
+    oracles outside C15: the server-side order of MultiView.accepts (pyramid.config.predicates.sort_accept_offers with
+    the registered accept view order) and WebOb's negotiation (acceptable_offers)."""
+    from pyramid.config.predicates import sort_accept_offers
+    from webob.acceptparse import create_accept_header
+    srt = sort_accept_offers(set(ACC[a] for a in present), order)
+    got = [o for o, _ in create_accept_header(HDR[h]).acceptable_offers(srt)]
+    back = {v: k for k, v in ACC.items()}
+    return [back[o] for o in got]
 
 
 def acceptable(a, h):
-    return a is None or h is None or h == a or h == 'jh'
+    """AcceptPredicate of a single view (WebOb oracle)"""
+    if a is None:
+        return True
+    from webob.acceptparse import create_accept_header
+    return bool(create_accept_header(HDR[h]).acceptable_offers([ACC[a]]))
 
 
 def mvtag(T):
@@ -181,47 +189,60 @@ class Book:
     (request type, context type, name) the members by predicate.  One member -> the view sits in the IView slot; two or
     more (different predicates) -> one MultiView OBJECT sits in the IMultiView slot (tag mvtag(triad), identity kept
     when members are added); same predicate -> the member is replaced (override)."""
-    def __init__(self, unreg):
+    def __init__(self, unreg, order=None):
         self.tri = {}
         self.unreg = unreg
+        self.order = order
         self.kinds = []
 
     def register(self, v):
         T = (v['rq'], 0 if v['ctx'] is None else CTX[v['ctx']], v['name'])
         mem = self.tri.setdefault(T, {})
         key = (v['pred'], v['acc'])
-        sfx = '-accept' if v['acc'] else ''
+        sfx = ('-accept' if v['acc'] else '') + ('-secured' if v['perm'] else '')
+        val = (v['tag'], v['perm'])
 
         def sl(vt):
             return [T[0], T[1], vt, T[2]]
         if not mem or (len(mem) == 1 and key in mem):
             self.kinds.append(('hist-override' if mem else 'hist-first-view') + sfx)
-            mem[key] = v['tag']
-            return ([[sl(0), []], [sl(1), []]] if self.unreg else []) + [[sl(0), [v['tag']]]]
+            mem[key] = val
+            # a view with a permission is registered under ISecuredView (view type 1)
+            return ([[sl(0), []], [sl(1), []]] if self.unreg else []) + [[sl(1 if v['perm'] else 0), [v['tag']]]]
         self.kinds.append(('hist-multiview-conversion' if len(mem) == 1 else
                            'hist-multiview-member-override' if key in mem else 'hist-multiview-add') + sfx)
-        mem[key] = v['tag']
+        mem[key] = val
         return [[sl(0), []], [sl(1), []], [sl(2), [mvtag(T)]]]
 
-    def table(self, m, h):
+    @staticmethod
+    def outcome(val, q):
+        g, perm = val
+        if perm and q['s'] and not q['u']:
+            return FORBIDDEN_ANSWER
+        return g
+
+    def table(self, q):
+        m, h = q['m'], q['h']
         out = []
         for T, mem in sorted(self.tri.items()):
             if len(mem) == 1:
-                ((p, a), g), = mem.items()
-                out.append([g, [g] if (p is None or p == m) and acceptable(a, h) else []])
+                ((p, a), val), = mem.items()
+                ok = (p is None or p == m) and acceptable(a, h)
+                out.append([val[0], [self.outcome(val, q)] if ok else []])
             elif mem:
                 present = {a for (_, a) in mem if a is not None}
                 ans = None
-                for grp in offers(h, present) + [None]:
+                for grp in (offers(h, present, self.order) if present else []) + [None]:
                     for p in (m, None):
                         if ans is None and (p, grp) in mem:
                             ans = mem[(p, grp)]
-                out.append([mvtag(T), [ans] if ans is not None else []])
+                out.append([mvtag(T), [self.outcome(ans, q)] if ans is not None else []])
         return out
 
 
 def gen_hist(rng):
     use_accept = rng.random() < 0.6
+    use_perm = rng.random() < 0.5
     tag = [0]
     tri = []
     steps = []
@@ -236,7 +257,8 @@ def gen_hist(rng):
             tri.append((rq, ctx, name))
         tag[0] += 1
         return V(rq, ctx, rng.choice([None, None, 'GET', 'POST', 'POST']), tag[0], name,
-                 rng.choice([None, None, None, 'html', 'json', 'json']) if use_accept else None)
+                 rng.choice([None, None, None, 'html', 'json', 'json', 'html1', 'plain']) if use_accept else None,
+                 1 if use_perm and rng.random() < 0.4 else 0)
     for _ in range(rng.choice([1, 2, 2, 3, 4])):
         steps.append(reg())
     lastq = None
@@ -247,16 +269,23 @@ def gen_hist(rng):
                 if rng.random() < 0.6:
                     q['m'] = rng.choice(METHODS)
                 if use_accept and rng.random() < 0.4:
-                    q['h'] = rng.choice([None, 'html', 'json', 'json', 'plain', 'jh'])
+                    q['h'] = rng.choice(HKEYS)
+                if use_perm and rng.random() < 0.5:
+                    q['u'] = rng.choice([0, 1])
+                    q['s'] = rng.choice([1, 1, 1, 0])
             else:
                 q = Q(rng.choice([1, 1, 1, 3]), rng.choice(['A', 'B', 'B', 'C', 'C', 'D']), rng.choice(METHODS),
                       0 if rng.random() < 0.9 else 1,
-                      rng.choice([None, 'html', 'json', 'json', 'plain', 'jh']) if use_accept else None)
+                      rng.choice(HKEYS) if use_accept else None,
+                      rng.choice([0, 1]) if use_perm else 0, rng.choice([1, 1, 1, 0]) if use_perm else 1)
             lastq = q
             steps.append(q)
         else:
             steps.append(reg())
-    return {'hist': steps}
+    return {'hist': steps, 'order': 1 if use_accept and rng.random() < 0.3 else 0}
+
+
+HKEYS = [None, 'html', 'json', 'json', 'plain', 'jh', 'html1', 'textany', 'anylow', 'xml']
 
 
 def hist_scenarios():
@@ -283,6 +312,20 @@ def hist_scenarios():
                          V(1, 'A', None, 4, 0, 'html'), Q(1, 'A', 'GET', 0, 'jh'), Q(1, 'A', 'GET', 0, 'json')]})
     out.append({'hist': [V(1, 'C', 'POST', 1), V(1, 'B', 'GET', 2), V(1, None, None, 3),
                          Q(1, 'C', 'PUT'), Q(1, 'C', 'GET'), Q(1, 'C', 'POST'), Q(1, 'C', 'GET'), Q(3, 'C', 'POST')]})
+    # secured views: the permission check of the cached callable depends on the request at hand only
+    out.append({'hist': [V(1, 'A', 'POST', 1, 0, None, 1), V(1, None, None, 2),
+                         Q(1, 'A', 'POST', 0, None, 1), Q(1, 'A', 'POST', 0, None, 0), Q(1, 'A', 'POST', 0, None, 0, 0),
+                         Q(1, 'A', 'GET', 0, None, 0), Q(1, 'A', 'POST', 0, None, 1)]})
+    out.append({'hist': [V(1, 'A', None, 1, 0, None, 1), V(1, 'A', 'POST', 2), Q(1, 'A', 'GET', 0, None, 1),
+                         Q(1, 'A', 'GET', 0, None, 0), V(1, 'A', None, 3), Q(1, 'A', 'GET', 0, None, 0),
+                         V(1, 'A', None, 4, 0, None, 1), Q(1, 'A', 'GET', 0, None, 0), Q(1, 'A', 'GET', 0, None, 0, 0)]})
+    # media-type parameters, wildcards in the header, custom accept view order
+    out.append({'hist': [V(1, 'A', None, 1, 0, 'html1'), V(1, 'A', None, 2, 0, 'html'), V(1, 'A', None, 3, 0, 'json'),
+                         Q(1, 'A', 'GET', 0, 'html'), Q(1, 'A', 'GET', 0, 'html1'), Q(1, 'A', 'GET', 0, 'textany'),
+                         Q(1, 'A', 'GET', 0, 'anylow'), Q(1, 'A', 'GET', 0, None), V(1, 'A', None, 4, 0, 'html1'),
+                         Q(1, 'A', 'GET', 0, 'textany'), Q(1, 'A', 'GET', 0, 'xml')], 'order': 1})
+    for c in out:
+        c.setdefault('order', 0)
     return out
 
 
@@ -345,8 +388,17 @@ class Gen:
         if depth < 3 and rng.random() < (0.65 if depth == 0 else 0.35):
             n = npoints(req, ctx)
             for _ in range(rng.choice([1, 1, 1, 2, 3])):
-                p = rng.choice([rng.randrange(n), rng.randrange(n), 0, n - 1, PT_LOCK, PT_LOCK, PT_UNLOCK, PT_GET, PT_GET])
+                p = rng.choice([rng.randrange(n), rng.randrange(n), 0, n - 1, PT_LOCK, PT_LOCK, PT_UNLOCK, PT_GET, PT_GET,
+                                PT_HELD, PT_HELD])
                 if any(q == p for q, _ in me['inj']):
+                    continue
+                if p == PT_HELD:
+                    # the lock is held by this (single) OS thread: a nested lookup would wait for it forever
+                    sub = []
+                    for _ in range(rng.choice([1, 1, 2])):
+                        r = self.reg(depth=9, near=me)
+                        sub.append(r)
+                    me['inj'].append([p, sub])
                     continue
                 ops = []
                 for _ in range(rng.choice([1, 1, 2])):
@@ -379,8 +431,10 @@ def systematic():
     out = []
     for req, ctx in ((1, 'A'), (1, 'B'), (3, 'A')):
         n = npoints(req, ctx)
-        for p in list(range(n)) + [PT_LOCK, PT_UNLOCK, PT_GET]:
+        for p in list(range(n)) + [PT_LOCK, PT_UNLOCK, PT_GET, PT_HELD]:
             for variant in range(6):
+                if p == PT_HELD and variant in (2, 4, 5):
+                    continue            # nested lookups cannot run while this thread holds the lock
                 init = [Rg(1, 'A', 0, 0, 1)]
                 if variant == 0:      # replacement of the only view, warm cache
                     ops = [L(req, ctx), L(req, ctx, 0, [[p, [Rg(1, 'A', 0, 0, 2)]]]), L(req, ctx)]
@@ -443,7 +497,7 @@ def targeted(broken, disagreements, rng):
     # the stale-write schedule with the registration at every internal point and for several keys
     for req, ctx in ((1, 'A'), (1, 'C'), (3, 'B')):
         n = npoints(req, ctx)
-        for p in list(range(n)) + [PT_LOCK, PT_UNLOCK, PT_GET]:
+        for p in list(range(n)) + [PT_LOCK, PT_UNLOCK, PT_GET, PT_HELD]:
             out.append({'init': [Rg(1, 'A', 0, 0, 1)],
                         'ops': [L(req, ctx, 0, [[p, [Rg(1, 'A', 0, 0, 2)]]]), L(req, ctx)]})
     for d in disagreements[:5]:
@@ -468,6 +522,8 @@ def _ops_ok(ops, depth):
                     return False
                 if not _ops_ok(e[1], depth + 1):
                     return False
+                if e[0] == PT_HELD and not all(x['t'] == 'R' and not x['inj'] and not x['inj2'] for x in e[1]):
+                    return False        # with the lock held only plain registrations can be scheduled
         elif o.get('t') == 'R':
             if o.get('rq') not in (1, 2) or o.get('ctx') not in (None, 'A', 'B', 'C', 'D', 'E') or o.get('name') not in (0, 1):
                 return False
@@ -486,18 +542,21 @@ def valid(case):
             return set(case) == {'soak', 'threads', 'regs'} and all(isinstance(case[x], int) for x in case) \
                 and 1 <= case['threads'] <= 32 and 1 <= case['regs'] <= 1000
         if isinstance(case, dict) and 'hist' in case:
-            if set(case) != {'hist'} or not isinstance(case['hist'], list) or len(case['hist']) > 40:
+            if set(case) != {'hist', 'order'} or case['order'] not in (0, 1) or not isinstance(case['hist'], list) \
+                    or len(case['hist']) > 40:
                 return False
             for st in case['hist']:
                 if not isinstance(st, dict):
                     return False
                 if st.get('t') == 'Q':
-                    if set(st) != {'t', 'req', 'ctx', 'name', 'm', 'h'} or st['req'] not in (1, 3) or st['m'] not in METHODS \
+                    if set(st) != {'t', 'req', 'ctx', 'name', 'm', 'h', 'u', 's'} or st['req'] not in (1, 3) \
+                            or st['m'] not in METHODS or st['u'] not in (0, 1) or st['s'] not in (0, 1) \
                             or st['h'] not in HDR \
                             or st['ctx'] not in ('A', 'B', 'C', 'D', 'E') or st['name'] not in (0, 1):
                         return False
                 elif st.get('t') == 'V':
-                    if set(st) != {'t', 'rq', 'ctx', 'name', 'pred', 'acc', 'tag'} or st['rq'] not in (1, 2) \
+                    if set(st) != {'t', 'rq', 'ctx', 'name', 'pred', 'acc', 'perm', 'tag'} or st['rq'] not in (1, 2) \
+                            or st['perm'] not in (0, 1) \
                             or st['acc'] not in ACC \
                             or st['pred'] not in PREDS or st['ctx'] not in (None, 'A', 'B', 'C', 'D', 'E') \
                             or st['name'] not in (0, 1) or not isinstance(st['tag'], int) or not (0 < st['tag'] < 90000):
@@ -549,12 +608,12 @@ def to_wire(case):
     if 'soak' in case:
         return [_sro_tbl, [], [], []]
     if 'hist' in case:
-        book = Book(_impl['override_unregisters'])
+        book = Book(_impl['override_unregisters'], _impl['orders'][case['order']])
         ops, ans = [], []
         for oid, st in enumerate(case['hist']):
             if st['t'] == 'Q':
                 ops.append([0, oid, [st['req'], CTX[st['ctx']], st['name']], []])
-                ans.append([oid, book.table(st['m'], st['h'])])
+                ans.append([oid, book.table(st)])
             else:
                 ops.append([1, oid, book.register(st), [], []])
         return [_sro_tbl, [], ops, ans]
@@ -590,7 +649,9 @@ class _Policy:
         return None
 
     def permits(self, request, context, permission):
-        return True
+        # depends on the request at hand only
+        from pyramid.security import Allowed, Denied
+        return Allowed('ok') if request.headers.get('X-User') == 'ok' else Denied('no credentials')
 
     def remember(self, request, userid, **kw):
         return []
@@ -682,6 +743,13 @@ def setup(tier):
     if got not in ([True, True], [False, True]):
         raise RuntimeError('unexpected adapter registry contents after an override: %r' % got)
     _impl['override_unregisters'] = (got == [False, True])
+    # oracle: the registered accept view order (default, and with application/json preferred to text/html)
+    from pyramid.interfaces import IAcceptOrder
+    orders = {}
+    for o in (0, 1):
+        wo = _World(order=o)
+        orders[o] = [v for _, v in wo.reg.queryUtility(IAcceptOrder).sorted()]
+    _impl['orders'] = orders
     for k, v in SRO_LEN.items():
         i = k if isinstance(k, int) else CTX[k]
         got = [len(s) for j, s in tbl if j == i][0]
@@ -726,6 +794,7 @@ class _LockProxy:
         return self
 
     def __exit__(self, *a):
+        self._fire(PT_HELD)          # after cache[key] = views, the lock still held (registrations only: see valid())
         self._real.release()
         self._fire(PT_UNLOCK)
         return False
@@ -735,18 +804,21 @@ class _LockProxy:
         return self._real.acquire(*a, **kw)
 
     def release(self):
+        self._fire(PT_HELD)
         self._real.release()
         self._fire(PT_UNLOCK)
 
 
 class _World:
-    def __init__(self):
+    def __init__(self, order=0):
         im = _impl
         self.reg = reg = im['Reg']('c15')
         self.config = config = im['Configurator'](registry=reg, autocommit=True)
         config.setup_registry()
         config.set_security_policy(_Policy())
         config.add_route('r1', '/r1')
+        if order:
+            config.add_accept_view_order('application/json', weighs_more_than='text/html')
         route = reg.queryUtility(im['IRouteRequest'], name='r1')
         self.req = {1: im['IRequest'], 2: route, 3: route.combined}
         self.ctx = {k: im['implementedBy'](c) for k, c in im['classes'].items()}
@@ -796,7 +868,7 @@ class _World:
         view.c15_tag = tag
         self.config.add_view(view, context=None if v['ctx'] is None else _impl['classes'][v['ctx']],
                              name=NAMES[v['name']], route_name='r1' if v['rq'] == 2 else None,
-                             request_method=v['pred'], accept=ACC[v['acc']])
+                             request_method=v['pred'], accept=ACC[v['acc']], permission='p' if v['perm'] else None)
         T = (v['rq'], 0 if v['ctx'] is None else CTX[v['ctx']], v['name'])
         ctx_iface = _impl['Interface'] if v['ctx'] is None else self.ctx[v['ctx']]
         mv = self.real.registered((IViewClassifier, self.req[v['rq']], ctx_iface), IMultiView, name=NAMES[v['name']])
@@ -808,9 +880,13 @@ class _World:
         """one request through pyramid.view._call_view -> ([] | [tag of the view that answered], crashed)"""
         from pyramid.request import Request
         from pyramid.exceptions import PredicateMismatch
+        from pyramid.httpexceptions import HTTPForbidden
         from zope.interface import providedBy
         r = Request.blank('/')
         r.method = st['m']
+        if st['u']:
+            r.headers['X-User'] = 'ok'
+
         if st['h'] is not None:
             r.headers['Accept'] = HDR[st['h']]
         r.registry = self.reg
@@ -819,10 +895,13 @@ class _World:
         ctx = _impl['classes'][st['ctx']]()
         _impl['last_found'] = None
         try:
-            resp = _impl['pview']._call_view(self.reg, r, ctx, providedBy(ctx), NAMES[st['name']])
+            resp = _impl['pview']._call_view(self.reg, r, ctx, providedBy(ctx), NAMES[st['name']],
+                                             secure=bool(st['s']))
             return ([] if resp is None else [int(resp.headers['X-C15'])]), 0
         except PredicateMismatch:
             return [], 0
+        except HTTPForbidden:
+            return [FORBIDDEN_ANSWER], 0
         except Exception:
             return [], 1
 
@@ -1014,13 +1093,13 @@ def run_soak(case):
 def run_hist(case):
     """a history of requests (through _call_view) and registrations on ONE application; next to each answer, what a
     freshly built application holding the same registrations answers to that single request"""
-    w = _World()
+    w = _World(order=case['order'])
     w.start()
     fresh = []
     for oid, st in enumerate(case['hist']):
         if st['t'] == 'Q':
             w.hist_request(st, oid)
-            f = _World()
+            f = _World(order=case['order'])
             for prev in case['hist'][:oid]:
                 if prev['t'] == 'V':
                     f.add_view_pred(prev)
@@ -1120,6 +1199,16 @@ def kinds(case, obs):
         if 'hist' in case:
             b = Book(False)
             k.append('hist')
+            if case['order']:
+                k.append('hist-custom-accept-order')
+            if any(st['t'] == 'V' and st['acc'] == 'html1' for st in case['hist']):
+                k.append('hist-accept-with-params')
+            if any(st['t'] == 'Q' and st['h'] in ('textany', 'anylow') for st in case['hist']):
+                k.append('hist-accept-header-wildcard')
+            if any(st['t'] == 'Q' and not st['s'] for st in case['hist']):
+                k.append('hist-permissive-call')
+            if any(a == [FORBIDDEN_ANSWER] for a in obs[3] if a != 0):
+                k.append('hist-forbidden-answer')
             seenq = False
             for st in case['hist']:
                 if st['t'] == 'V':
@@ -1162,7 +1251,8 @@ def kinds(case, obs):
             for o in ops:
                 if o['t'] == 'L':
                     for p, sub in o['inj']:
-                        s.add('inj-lock' if p == PT_LOCK else 'inj-unlock' if p == PT_UNLOCK else 'inj-before-get' if p == PT_GET else 'inj-query')
+                        s.add('inj-lock' if p == PT_LOCK else 'inj-unlock' if p == PT_UNLOCK else 'inj-before-get' if p == PT_GET
+                              else 'inj-lock-held' if p == PT_HELD else 'inj-query')
                         s |= pts(sub)
                 else:
                     if o['inj']:
